@@ -46,7 +46,7 @@ class _W:
     def kill(self):
         try:
             self.proc.kill()
-            self.proc.join(1)
+            self.proc.join(0.05)  # do not block the dispatcher; the zombie is reaped by a later join/exit
         except Exception:
             pass
         try:
@@ -91,7 +91,8 @@ def run_pool(fn, tasks, timeout: float = 10.0, procs: int | None = None):
                     else:
                         w.idx = None
                     done += 1
-                elif time.time() > w.deadline:
+                elif time.time() > w.deadline and not w.parent.poll(0):
+                    # (poll again: the result may have arrived while other workers were being handled)
                     res[w.idx] = ("timeout", timeout)
                     done += 1
                     w.kill()
